@@ -179,14 +179,19 @@ func VerifyYouVersionState(prev, curr *types.Header) (err error) {
 		} else {
 			// 2.2 still on-going
 			isValid = isValid && curr.NextVersion == prev.NextVersion
-			if curr.NextApprovals < prevProto.UpgradeThreshold {
+			isValid = isValid && curr.NextVoteBefore == prev.NextVoteBefore
+			if currentRound < prev.NextVoteBefore {
+				// inside the voting window: at most one more approval
 				isValid = isValid &&
-					curr.NextVoteBefore == prev.NextVoteBefore &&
-					curr.NextVoteBefore > currentRound
+					(curr.NextApprovals == prev.NextApprovals ||
+						curr.NextApprovals == prev.NextApprovals+1)
+			} else {
+				// the window is closed: no more approvals,
+				// and a proposal can only survive with enough approvals.
+				isValid = isValid &&
+					curr.NextApprovals == prev.NextApprovals &&
+					prev.NextApprovals >= prevProto.UpgradeThreshold
 			}
-			isValid = isValid &&
-				(curr.NextApprovals == prev.NextApprovals ||
-					curr.NextApprovals == prev.NextApprovals+1)
 			isValid = isValid && curr.NextSwitchOn == prev.NextSwitchOn
 		}
 	} else {
